@@ -88,7 +88,7 @@ def matchesFor (cfg : Cfg) (ms : List Mat) (r : R) : List Mat :=
      | _, _ => false))
 
 /-- Docs clause: the tag's docs are the stripped texts of the doc captures of one of the matches
-with the lowest pattern index for that name node. -/
+with the lowest pattern index for that name node, computed with the SPEC `docsSpec`. -/
 def judgeDocs (cfg : Cfg) (src : Bytes) (ms : List Mat) (t : Tag) : Bool :=
   let cands := matchesFor cfg ms t.name
   match cands.map (·.pat) |>.min? with
@@ -96,7 +96,26 @@ def judgeDocs (cfg : Cfg) (src : Bytes) (ms : List Mat) (t : Tag) : Bool :=
   | some p =>
     (cands.filter (·.pat == p)).any (fun m =>
       let pi := cfg.pats[m.pat]?.getD {}
-      docsOf src pi (capLoop cfg pi m.caps) == t.docs)
+      let a := capLoop cfg pi m.caps
+      docsSpec (pi.strip.map stripFn) src a.adj a.docs == t.docs)
+
+/-- Kind clause (spec level, from the capture NAMES): for one of the lowest-index matches of the tag's name
+node, the last capture named `definition.K` / `reference.K` decides `is_definition` and the tag's
+`syntax_type_id` indexes `K` in the kinds table the implementation reports. -/
+def judgeKind (cfg : Cfg) (names kinds : List String) (ms : List Mat) (t : Tag) : Bool :=
+  let cands := matchesFor cfg ms t.name
+  match cands.map (·.pat) |>.min? with
+  | none => false
+  | some p =>
+    (cands.filter (·.pat == p)).any (fun m =>
+      let kindsOf := m.caps.filterMap (fun c =>
+        let n := names[c.idx]?.getD ""
+        if n.startsWith "definition." then some (true, (n.drop 11).toString)
+        else if n.startsWith "reference." then some (false, (n.drop 10).toString)
+        else none)
+      match kindsOf.getLast? with
+      | some (d, k) => t.isDef == d && kinds[t.stid]? == some k
+      | none => false)
 
 /-! Local-scope clause: which names must be present, recomputed from the matches with the spec walk. -/
 
